@@ -38,8 +38,30 @@ def run_kernel(cfg, drv) -> Outcome:
 
     op, dom, rng_shape, tol = zoo_kernels.build(cfg)
     single = cfg['kind'] == 'sliceproj'  # the sparse projection matrix is float32
+    import math
+
     F = zoo_kernels.dense(op.forward, dom, single=single)
-    A = zoo_kernels.dense(op.adjoint, rng_shape, single=single)
+    n_rng = math.prod(rng_shape)
+    if n_rng <= 400:
+        A = zoo_kernels.dense(op.adjoint, rng_shape, single=single)
+    else:
+        # large range (long wavelet filters): all u, but only a sample of v (8 random vectors and 8 basis vectors), completed to a matrix
+        g = torch.Generator().manual_seed(cfg['seed'])
+        V = torch.randn(n_rng, 16, dtype=torch.float64, generator=g).to(F.dtype)
+        V[:, 8:] = 0
+        for c, r in enumerate(torch.randint(0, n_rng, (8,), generator=g).tolist()):
+            V[r, 8 + c] = 1
+        AV = torch.stack([op.adjoint(V[:, c].reshape(rng_shape))[0].reshape(-1).to(F.dtype) for c in range(16)], 1)
+        want = F.conj().T @ V
+        scale = max(1.0, float(F.abs().max()))
+        dev = float((want - AV).abs().max()) / scale
+        viol = None
+        if not (dev <= tol * 10):
+            fam = cfg.get('wavelet', '')
+            sub = ('biorthogonal' if fam in zoo_kernels.WAVELETS_BIORTHO else 'orthogonal') if cfg['kind'] == 'wavelet' else ''
+            viol = {'signature': f'adjoint:{cfg["kind"]}:{sub}', 'what': f'{cfg}: adjoint(v) differs from forward^H v for a sampled v by {dev * scale:.3e}'}
+        return Outcome(key={k: v for k, v in cfg.items() if k != 'seed'}, viol=viol, branches=[f'kernel:{cfg["kind"]}:{cfg.get("wavelet", "")}:sampled-v'],
+                       sample={**cfg, 'matrix_shape': list(F.shape), 'adjoint_deviation': dev, 'sampled_v': 16})
     scale = max(1.0, float(F.abs().max()))
     dev = float((F.conj().T - A).abs().max()) / scale
     viol = None
